@@ -35,11 +35,14 @@ structure Rs where
   offSince : Option Nat := none   -- ghost
   deriving Repr, DecidableEq
 
+/-- the counter value relay_hi stores as start/stop stamp: 0 means "not set", so a reading of 0 is stored as 1 -/
+def stamp (c : Nat) : Nat := if c = 0 then 1 else c
+
 namespace Rs
 
 /-- supla_esp_gpio_relay_hi for relay `isUp` of this shutter; `pin` only labels the observation -/
 def relayHi (P : RsParams) (s : Rs) (isUp : Bool) (pin : Nat) (hi : Bool) : Rs × List RsObs :=
-  let t := cnt s.boot s.now
+  let t := stamp (cnt s.boot s.now)
   let entry := s.now
   let wt := s.now + P.preUs
   let old := if isUp then s.up else s.down
